@@ -466,6 +466,24 @@ func c16Case(rec *vlib.Rec, conds []*RpkiValidationCondition, idx int) {
 			if r.IntN(5) == 0 {
 				x = c16NewRec(r, pool, nsrc)
 				mapped = mapped || x.pfx.Addr().Is4In6()
+			} else if r.IntN(4) == 0 { // differs from a known record in one field only
+				top := x.pfx.Addr().BitLen()
+				switch r.IntN(4) {
+				case 0: // same base address, other prefix length
+					nb := r.IntN(top + 1)
+					if p := netip.PrefixFrom(x.pfx.Addr(), nb); p.Masked() == p && nb != x.pfx.Bits() {
+						x.pfx = p
+					} else {
+						x.as++
+					}
+				case 1:
+					x.maxLen = uint8(r.IntN(top + 1))
+				case 2:
+					x.as = c16Pick(r, c16ASPool)
+				default:
+					x.src = c16Sources[r.IntN(3)]
+				}
+				rec.Count("t_delete_near_miss", 1)
 			}
 			do("del "+x.String(), func() { rt.Delete(x.roa()) })
 			if model.del(x) {
